@@ -19,6 +19,7 @@ for id in "${ids[@]}"; do
   sig="$(echo "$out" | grep 'signature:' | head -1 | cut -c1-140)"
   if echo "$out" | grep -q "PATCH DOES NOT APPLY"; then echo "NO-APPLY $id ($patch)"; res=1
   elif [ $rc -eq 0 ]; then echo "CAUGHT $id [$checks] $sig"
+  elif [[ "$expect" == *"obsolete"* ]]; then echo "OBSOLETE $id [$checks] (the change no longer alters behaviour on the current tree)"
   elif [[ "$expect" == *"not caught"* ]]; then echo "EXPECTED-MISS $id [$checks]"
   else echo "MISSED $id [$checks] $(echo "$out" | grep -E '==|HARNESS' | head -2 | tr '\n' ' ')"; res=1; fi
 done
